@@ -81,13 +81,15 @@ theorem C10_else_unimplemented (reg : List Svc) (hwf : WellFormed reg) (path : B
     · rw [hd]; exact ⟨rfl, rfl⟩
 
 /-- The observation the model predicts satisfies the executable spec predicate
-(`Spec.Router.allowed`, the one the driver evaluates on the real implementation's output). -/
-theorem C10_model_allowed (reg : List Svc) (hwf : WellFormed reg) (path : Bytes)
-    (hst : Option Nat) :
-    Spec.Router.allowed (decl reg) path
+(`Spec.Router.allowed`, the one the driver evaluates on the real implementation's output):
+the handler the model says ran, the grpc-status of the routing layer where it answered itself
+and the handler's own status `hs` otherwise, HTTP 200, `application/grpc`. -/
+theorem C10_model_allowed (reg : List Svc) (hwf : WellFormed reg) (path : Bytes) (hs : Nat) :
+    Spec.Router.allowed (decl reg) path hs
       ⟨(dispatch reg path).handlerRan,
-        match (dispatch reg path).routerStatus with | some c => some c | none => hst⟩ = true := by
-  unfold Spec.Router.allowed
+        (match (dispatch reg path).routerStatus with | some c => some c | none => some hs),
+        200, true⟩ = true := by
+  unfold Spec.Router.allowed Spec.Router.handlerOk Spec.Router.answerOk
   cases ht : Spec.Router.targets (decl reg) path with
   | nil =>
     have hno : ¬ ∃ s m, Spec.Router.Declares (decl reg) s m ∧ path = Spec.Router.pathOf s m := by
@@ -100,7 +102,7 @@ theorem C10_model_allowed (reg : List Svc) (hwf : WellFormed reg) (path : Bytes)
     obtain ⟨s, m⟩ := t
     have hmem : (s, m) ∈ Spec.Router.targets (decl reg) path := by rw [ht]; exact List.mem_cons_self
     have hd := (C10_dispatch_iff reg hwf path s m).mpr ((Spec.Router.mem_targets _ _ _ _).mp hmem)
-    simp [hd, Outcome.handlerRan]
+    simp [hd, Outcome.handlerRan, Outcome.routerStatus]
 
 /-- **Registration order does not matter.** -/
 theorem C10_order_irrelevant (reg reg' : List Svc) (hperm : reg.Perm reg') (hwf : WellFormed reg)
@@ -125,16 +127,22 @@ theorem C10_method_order_irrelevant (n : Bytes) (ms ms' : List Bytes) (h : ms.Pe
 private theorem wrapped_call (w : Wrapped) (p : Bytes) : w.call p = w.base.call p := by
   induction w with
   | gen s => rfl
-  | intercepted w ih => exact ih
+  | intercepted _ w ih => exact ih
   | layered w ih => exact ih
 
 private theorem wrapped_name (w : Wrapped) : w.name = w.base.name := by
   induction w with
   | gen s => rfl
-  | intercepted w ih => exact ih
+  | intercepted _ w ih => exact ih
   | layered w ih => exact ih
 
-/-- **NAME propagation.**  Wrapping services in any nesting of `InterceptedService` / `Layered`
+/-- **NAME propagation** — *transcription lemma (definitional)*: `Wrapped.name` / `Wrapped.call`
+are written to forward to the inner service, exactly as the three-line `NamedService` /
+`Service` impls of `InterceptedService` and `Layered` do (the interceptor's returned request,
+including any `http::Uri` it put into the extensions, is ignored), so this unfolds the model and adds no
+assurance of its own; that the real wrappers forward NAME and the URI is established by the
+correspondence run (wrapper stacks `icept`, `layer`, `both`, and the interceptors that return a
+fresh request, clear the extensions, plant a URI of their own, rewrite metadata).  Wrapping services in any nesting of `InterceptedService` / `Layered`
 changes nothing about routing: the wrapped registry dispatches like the bare one. -/
 theorem C10_wrappers_transparent (reg : List Wrapped) (path : Bytes) :
     dispatchW reg path = dispatch (reg.map Wrapped.base) path := by
@@ -150,7 +158,10 @@ theorem C10_wrappers_transparent (reg : List Wrapped) (path : Bytes) :
     | none => rfl
     | some w => exact wrapped_call w path
 
-/-- A registry that is *not* a set (same name twice) is rejected at registration time. -/
+/-- *Transcription lemma (definitional)*: restates the first line of `dispatch` (the model of
+axum's "conflicting route" panic).  A registry that is *not* a set (same name twice) is rejected
+at registration time; that axum really panics is a tie-only fact (corpus cases with a repeated
+service). -/
 theorem C10_duplicate_panics (reg : List Svc) (path : Bytes) (h : ¬ (reg.map Svc.name).Nodup) :
     dispatch reg path = .panic := by
   have : hasDup (reg.map Svc.name) = true := by
@@ -158,6 +169,96 @@ theorem C10_duplicate_panics (reg : List Svc) (path : Bytes) (h : ¬ (reg.map Sv
     | true => rfl
     | false => exact absurd ((hasDup_false_iff _).mp hd) h
   simp [dispatch, this]
+
+/-! ### Every way of building the router -/
+
+/-- The handler an `Answer` stands for. -/
+def answerHandler : Answer → Option (Bytes × Bytes)
+  | .tonic o => o.handlerRan
+  | _ => none
+
+/-- **Every construction is the plain registry.**  Start with `Routes::new`, `Routes::default`,
+`Routes::builder`, `Server::add_service`, `Server::add_optional_service(Some | None)`; continue
+with any sequence of `add_service`, `add_optional_service(Some | None)`, `prepare`,
+`into_axum_router` and back, `RoutesBuilder::from`, `RoutesBuilder::routes`,
+`Server::add_routes` — in any order, any number of times.  The finished router holds exactly
+the services mounted on the way, no other route, and tonic's UNIMPLEMENTED fallback. -/
+theorem C10_every_construction (start : Start) (ops : List Op)
+    (hs : start.tonicOnly = true) (ho : ∀ op ∈ ops, op.tonicOnly = true) :
+    (build start ops).table = ⟨mounted start ops, [], .unimplemented⟩ := by
+  have h1 : (build start ops).table.svcs = mounted start ops := by
+    unfold build mounted; rw [foldl_svcs, start_svcs]
+  have h2 : (build start ops).table.fb = .unimplemented := by
+    unfold build; rw [foldl_fb]; exact (start_rest start hs).1
+  have h3 : (build start ops).table.user = [] := by
+    unfold build; rw [foldl_user ops ho]; exact (start_rest start hs).2
+  cases h : (build start ops).table with
+  | mk a b c => rw [h] at h1 h2 h3; simp only at h1 h2 h3; rw [h1, h2, h3]
+
+/-- … hence every construction answers every path as `dispatch` does on the list of mounted
+services, to which `C10_dispatch_iff`, `C10_else_unimplemented` and `C10_order_irrelevant`
+apply. -/
+theorem C10_construction_dispatch (start : Start) (ops : List Op)
+    (hs : start.tonicOnly = true) (ho : ∀ op ∈ ops, op.tonicOnly = true) (path : Bytes) :
+    (build start ops).table.serve path = .tonic (dispatch (mounted start ops) path) := by
+  rw [C10_every_construction start ops hs ho]
+  unfold Table.serve dispatch
+  simp only [hasDup, Bool.or_false]
+  split
+  · rfl
+  · simp only [List.contains_nil, Bool.false_eq_true, if_false]
+    cases (mounted start ops).find? (fun s => routeMatches s.name path) <;> rfl
+
+/-- **A user-made `axum::Router` underneath** (`Routes::from(axum::Router)`,
+`RoutesBuilder::from(axum::Router)`, routes added through `axum_router_mut`): for every
+request path that is not one of the user's own routes (which are distinct: axum refuses the
+same route twice), the handler that runs (if any) is still
+the one `dispatch` names on the mounted services — the user's router can change the answer to
+unrouted paths, never which tonic handler runs. -/
+theorem C10_user_router_handlers (start : Start) (ops : List Op) (path : Bytes)
+    (hu : hasDup (build start ops).table.user = false)
+    (hp : ((build start ops).table.user.contains path) = false) :
+    answerHandler ((build start ops).table.serve path) =
+      (dispatch (mounted start ops) path).handlerRan := by
+  have h1 : (build start ops).table.svcs = mounted start ops := by
+    unfold build mounted; rw [foldl_svcs, start_svcs]
+  unfold Table.serve dispatch
+  rw [h1, hp, hu, Bool.or_false]
+  split
+  · rfl
+  · simp only [Bool.false_eq_true, if_false]
+    cases (mounted start ops).find? (fun s => routeMatches s.name path) with
+    | some s => rfl
+    | none => cases (build start ops).table.fb <;> rfl
+
+/-- … and the fallback of such a router is the one the user's router came with, whatever is
+called afterwards (`From<axum::Router> for Routes` adds nothing). -/
+theorem C10_user_router_fallback (u : UserRouter) (ops : List Op) :
+    (build (.fromAxum u) ops).table.fb = (if u.ownFallback then .user else .axumNotFound) ∧
+    (build (.builderFromAxum u) ops).table.fb = (if u.ownFallback then .user else .axumNotFound) := by
+  unfold build
+  rw [foldl_fb, foldl_fb]
+  exact ⟨rfl, rfl⟩
+
+/-- The full statement over *all* constructions — "a path that names no declared method is
+answered UNIMPLEMENTED by the routing layer" — is **false of the code as found**: a service
+mounted on `Routes::from(axum::Router::new())` leaves axum's bare `404 Not Found` (no
+grpc-status) as the answer to unknown paths.  `C10_construction_dispatch` is the statement
+under the exact guard (no user-made `axum::Router` involved). -/
+theorem C10_else_unimplemented_any_construction_fails :
+    ¬ (∀ (start : Start) (ops : List Op) (path : Bytes),
+        (∀ op ∈ ops, op.tonicOnly = true) → WellFormed (mounted start ops) →
+        (¬ ∃ s m, Spec.Router.Declares (decl (mounted start ops)) s m ∧
+          path = Spec.Router.pathOf s m) →
+        ∃ o, (build start ops).table.serve path = .tonic o ∧ o.routerStatus = some 12) := by
+  intro h
+  have := h (.fromAxum ⟨[], false⟩) [] [47, 120] (by simp)
+    (by refine ⟨?_, ?_, ?_⟩ <;> simp [mounted, Start.services])
+    (by rintro ⟨s, m, ⟨ms, hm, _⟩, _⟩; simp [decl, mounted, Start.services] at hm)
+  obtain ⟨o, ho, _⟩ := this
+  have hw : (build (.fromAxum ⟨[], false⟩) []).table.serve [47, 120] = .axumNotFound := by decide
+  rw [hw] at ho
+  cases ho
 
 /- Non-vacuity and the shapes the property text lists, on a registry with names that are
 prefixes of one another, with and without package, differing only in case. -/
@@ -186,5 +287,21 @@ example : dispatch reg0 (bs "/a.S/M") ≠ dispatch reg0 (bs "/a.S/m") := by deci
 example : dispatch reg0 (bs "/a/S") = .handler (bs "a") (bs "S") := by decide
 example : dispatch reg0 (bs "/a.S/%4D") = .svcDefault (bs "a.S") := by decide
 example : dispatch (reg0 ++ [⟨bs "S", []⟩]) (bs "/S/M") = .panic := by decide
+
+-- constructions: the first call adds nothing (`add_optional_service(None)`), services arrive
+-- later through a builder and a server router, with `prepare` and an axum round trip between
+private def s0 : Svc := ⟨bs "a.S", [bs "M"]⟩
+private def s1 : Svc := ⟨bs "S", [bs "M"]⟩
+example : (build (.serverAddOptional none) [.addOptional none, .addService s0, .addOptional (some s1)]).table.serve (bs "/S/M")
+    = .tonic (.handler (bs "S") (bs "M")) := by decide
+example : (build (.serverAddOptional none) []).table.serve (bs "/S/M") = .tonic .fallback := by decide
+example : (build .routesBuilder [.addService s0, .builderRoutes, .prepare, .axumRoundTrip, .intoBuilderViaAxum,
+    .addService s1, .serverAddRoutes]).table.serve (bs "/a.S/M") = .tonic (.handler (bs "a.S") (bs "M")) := by decide
+example : (build (.fromAxum ⟨[bs "/u/hello"], true⟩) [.addService s0]).table.serve (bs "/a.S/M")
+    = .tonic (.handler (bs "a.S") (bs "M")) := by decide
+example : (build (.fromAxum ⟨[bs "/u/hello"], true⟩) [.addService s0]).table.serve (bs "/a.S/x") = .tonic (.svcDefault (bs "a.S")) := by decide
+example : (build (.fromAxum ⟨[bs "/u/hello"], true⟩) [.addService s0]).table.serve (bs "/u/hello") = .userRoute (bs "/u/hello") := by decide
+example : (build (.fromAxum ⟨[bs "/u/hello"], true⟩) [.addService s0]).table.serve (bs "/zz") = .userFallback := by decide
+example : (build (.builderFromAxum ⟨[], false⟩) [.addService s0, .serverAddRoutes]).table.serve (bs "/zz") = .axumNotFound := by decide
 
 end C10
